@@ -379,6 +379,9 @@ func c19Edit(m *ir.Module) {
 	}
 }
 
+// c19Expected: the step in progress is one whose print is expected to panic.
+var c19Expected bool
+
 func minInt(a, b int) int {
 	if a < b {
 		return a
@@ -447,7 +450,13 @@ func c19Episode(sc *C19Scenario, src *moduleSource, S string) (bad *c19Outcome, 
 			}
 		}
 		for i := range sc.Steps {
+			if sc.Steps[i].Kind == "osfile-panics" && nativeGoroutines {
+				outs = append(outs, &c19Outcome{})
+				continue
+			}
+			c19Expected = sc.Steps[i].Kind == "osfile-panics"
 			o := c19Run(&sc.Steps[i], m, S)
+			c19Expected = false
 			outs = append(outs, o)
 			if o.class != "" && bad == nil {
 				bad, badStep = o, i
@@ -455,6 +464,12 @@ func c19Episode(sc *C19Scenario, src *moduleSource, S string) (bad *c19Outcome, 
 			}
 		}
 	})
+	if crashed && c19Expected && bad == nil && skip == "" {
+		// the print that was expected to panic did so on a goroutine of the code
+		// under test (the process would have died): nothing follows
+		c19Expected = false
+		skip = "a print of unprintable IR panicked on a goroutine of the code under test (the process would have died)"
+	}
 	if crashed && bad == nil && skip == "" {
 		// The sequential reference print of the same module did not panic.
 		bad = &c19Outcome{class: "panic", sig: "panic on a goroutine started by WriteTo", detail: crashMsg}
